@@ -144,10 +144,13 @@ func (a *DevAddr) UnmarshalBinary(data []byte) error {
 	if len(data) != len(a) {
 		return fmt.Errorf("lorawan: %d bytes of data are expected", len(a))
 	}
+	// via a temporary: data may overlap the receiver (a.UnmarshalBinary(a[:]))
+	var tmp DevAddr
 	for i, v := range data {
 		// little endian
-		a[len(a)-i-1] = v
+		tmp[len(a)-i-1] = v
 	}
+	*a = tmp
 	return nil
 }
 
